@@ -54,6 +54,28 @@ theorem chk_order_check_is_cellwise (files : List (Int × Int × Int)) (pos : Li
       then .ok () else .error PyErr.invalidStack :=
   Src.chk_order_check_eq files pos S T V
 
+/-- **the cell-wise condition of the translated `_chk_order` loop is the two order conjuncts of the
+    model's acceptance test** (block-wise: every vector block constant, every volume lists the sorted
+    distinct positions), for a sorted list of S·T·V files -/
+theorem cells_are_model_blocks (sorted : List F) (pos : List Int) (S T V : Nat)
+    (hlen : sorted.length = S * T * V) (hpos : pos.length = S) :
+    ((List.range V).all fun v => (List.range T).all fun t => (List.range S).all fun s =>
+        cellOk (sorted.map key) pos S T v t s) =
+      ((chunks (T * S) V sorted).all allSameV &&
+       (chunks S (T * V) sorted).all (fun b => b.map (·.p) == pos)) :=
+  Src.cells_eq_chunks sorted pos S T V hlen hpos
+
+/-- **the model's acceptance test is what the translated Python does**: `get_shape`'s count checks
+    followed by `_chk_order`'s thorough check on the list the two sorts produce succeed exactly when
+    the model's `acceptB` holds, with the model's dimensions — for every list of files -/
+theorem get_shape_accepts_iff_model (spacingOk : List Int → Bool) (files : List F) :
+    acceptB spacingOk files = true ↔
+      Py.get_shape_counts files.length (dimS files) (dimV files)
+          (spacingOk (distinctSorted (files.map (·.p)))) = .ok (dimS files, dimT files, dimV files) ∧
+      Py.chk_order_check ((chkSort (dimS files) (files.length / dimS files) files).map key)
+          (distinctSorted (files.map (·.p))) (dimS files) (dimT files) (dimV files) = .ok () :=
+  Src.source_accepts_iff spacingOk files
+
 /-- the translator translated every function of dcmstack.py it is asked for -/
 theorem translator_complete_stack : Gen.codeMissingStack = [] := rfl
 
